@@ -162,19 +162,20 @@ Definition lookup_fault (faults : list (nat * fkind)) (k : nat) : option fkind :
 Section Exec.
 Variable lim : option nat.                    (* SetMaxCallStackSize; None = unlimited *)
 Variable faults : list (nat * fkind).         (* the k-th probe() call (0-based) performs the fault *)
-(* [fixed = true] : goja's algorithm as it is on the current tree.
-   [fixed = false]: the algorithm before the repairs of F16 (generator/async marker+context pops did not run on the
-   panic path; 195c9cc), F21 (a recursive RunProgram whose own pushCtx overflowed popped the caller's context; 82237e3)
-   and F22 (a foreign Go panic leaving the outermost call kept prg and the pending jobs; 7d68b51), kept for the record:
-   wherever it deviates from the repaired algorithm the ghost field [leaked] grows (it is never read).
-   F17 (RunProgram's recover path, 60d9770) and F12 (iterator.return() on uncatchable unwinding, 22853aa) are repaired
-   on both sides. *)
+(* [fixed = false]: goja's algorithm as it is on the current tree.
+   [fixed = true] : the repaired algorithm for the open finding F23 (an uncatchable error raised inside an iterator's
+   return() while handleThrow runs in runTryInner's deferred recover leaves the run loop); where the two differ the
+   ghost field [leaked] grows (id 23; it is never read).
+   The former findings are repaired in /repo and the model carries the repaired algorithm: F16 195c9cc (generator / async
+   marker+context pops run on the panic path too), F17 60d9770, F21 82237e3 (a recursive RunProgram whose own pushCtx
+   overflowed does not pop what it never pushed), F22 7d68b51 (a foreign Go panic leaving the outermost call resets prg
+   and drops the pending jobs), F12 22853aa (no iterator.return() on uncatchable unwinding). *)
 Variable fixed : bool.
-(* ghost: which recorded finding (16, 21, 22) the execution ran into *)
+(* ghost: which recorded finding (23) the execution ran into *)
 Definition deviate (id : nat) (s : state) : state := set_leaked (id :: leaked s) s.
 Definition host_panic_exit (s : state) : state :=
   if Nat.eqb (length (cs s)) 0 then
-    (if fixed then set_jq [] s else match jq s with [] => s | _ => deviate 22 s end)
+    set_jq [] s
   else s.
 
 (* handleThrow for a payload that closes no iterator (uncatchable), or where no iterator record can be pending *)
@@ -328,7 +329,7 @@ Definition native_call (ex : node -> state -> state * outcome) (n : Z) (f : stat
 Definition gen_enter (s : state) : state * outcome :=
   if over lim s then (s, OPanic PSO) else
   let s1 := set_sb (-1) (set_prg false (push_try true false false (push_ctx s))) in
-  if over lim s1 then ((if fixed then pop_ctx (pop_try s1) else deviate 16 s1), OPanic PSO) else
+  if over lim s1 then (pop_ctx (pop_try s1), OPanic PSO) else
   (set_sb (sp s - 1) (set_stash 0 (set_prg true (set_args 0 (push_ctx s1)))), ONorm).
 
 (* generator.enterNext + resume of a context suspended with a 2-slot stack segment *)
@@ -345,7 +346,7 @@ Definition gen_leave (s : state) : state :=
 (* the exit of a generator/async resumption whose body panicked (the body's run loop already unwound to the
    resumption's marker): popTryFrame + popCtx run only when the exception is a JS exception (F16) *)
 Definition gen_abort (s : state) (p : payload) : state :=
-  if catchable p || fixed then pop_ctx (pop_try s) else deviate 16 s.
+  pop_ctx (pop_try s).
 
 Section Nodes.
 Variable ex : node -> state -> state * outcome.                                   (* nodes, one unit of fuel less *)
@@ -527,9 +528,8 @@ Fixpoint nforof_loop (id : nat) (next acts : list node) (k : nat) (s : state) : 
 Definition nrun_rec (swallow : bool) (body : list node) (s : state) : state * outcome :=
   let fin (s : state) := pop_ctx (add_sp (-2) s) in
   if over lim s then
-    (* pushCtx panicked before anything was pushed; the deferred function still does sp -= 2; popCtx *)
-    let s' := if fixed then s else deviate 21 (fin s) in
-    policy swallow (if Nat.eqb (length (cs s')) 0 then leave_abrupt s' else s') PSO
+    (* pushCtx panicked before anything was pushed: nothing to pop (ctxPushed is false) *)
+    policy swallow (if Nat.eqb (length (cs s)) 0 then leave_abrupt s else s) PSO
   else
   let s1 := set_prg true (add_sp 2 (set_sb (sp s + 1) (set_args 0 (set_stash 0 (push_ctx s))))) in
   match loop_out (run_items ex body (push_try true false false s1)) with
@@ -643,8 +643,7 @@ Definition top_recover (inbody : bool) (s : state) (p : payload) : state * outco
     (* len(vm.callStack) == 0: vm.prg = nil; vm.sb = -1; leaveAbrupt *)
     ((if Nat.eqb (length (cs s0)) 0 then leave_abrupt (set_sb (-1) (set_prg false s0)) else s0), ONorm, Some p)
   else
-    let s' := if fixed then set_sb (-1) (set_prg false s0)
-              else if inbody && prg s0 then deviate 22 s0 else s0 in
+    let s' := set_sb (-1) (set_prg false s0) in
     (host_panic_exit s', OPanic p, None).
 (* vm.prg = nil; vm.sb = -1; r.leave() *)
 Definition top_leave (s2 : state) (err : option payload) : state * outcome * option payload :=
